@@ -157,6 +157,9 @@ class DocGen:
             elif x < 0.25:
                 nm = 'xmlns:' + self.name()
                 self.f('attr:xmlns-prefix')
+            elif x < 0.31:
+                nm = r.choice(['xmlnsx', 'xmlns.a', 'xmlns-', 'p:xmlns', 'xmlnsx:a', 'xml', 'xmln', 'xmlns_:xmlns'])
+                self.f('attr:xmlns-like-name')
             else:
                 nm = self.qname()
             if nm in used and r.random() < 0.9:
